@@ -127,6 +127,10 @@ type Cluster struct {
 	OnAction       func(*Request, *Action) *Exc // per single operation
 	OnRegionAction func(*Request, []byte) *Exc  // per region of a multi
 	ScanPolicy     func(*ScanCtx) ScanChunk
+	// ForceNoMoreResults, if it returns true for a scan request, makes the
+	// server answer it with more_results=false (and close its scanner) even
+	// though rows remain: a server-side limit or filter ended the scan.
+	ForceNoMoreResults func(*Request) bool
 	MaxReplyDelay  time.Duration // responses are delayed by a random time up to this (reorders them)
 	PermuteMulti   bool          // permute ResultOrException inside a region action result
 	PBResults      bool          // send results inside protobuf instead of cellblocks
